@@ -4,6 +4,7 @@ import (
 	"fmt"
 	"math/rand/v2"
 	"sync"
+	"sync/atomic"
 	"time"
 
 	"github.com/semihalev/sdns/internal/cache"
@@ -183,7 +184,7 @@ type clearCase struct {
 
 func runConcClear(c *ctx, idx int) (fail *seqFail, cs clearCase) {
 	rng := c.r.RandN("clear", idx)
-	cs = clearCase{Kind: "clear", Index: idx, Writers: 2 + rng.IntN(7), Rounds: 200}
+	cs = clearCase{Kind: "clear", Index: idx, Writers: 2 + rng.IntN(7), Rounds: 40}
 	var m interface {
 		Set(uint64, any)
 		Del(uint64) bool
@@ -203,13 +204,17 @@ func runConcClear(c *ctx, idx int) (fail *seqFail, cs clearCase) {
 	}
 	var wg sync.WaitGroup
 	start := make(chan struct{})
+	var stop atomic.Bool
 	for g := 0; g < cs.Writers; g++ {
 		wg.Add(1)
 		wr := c.r.RandN(fmt.Sprintf("clear/w%d", g), idx)
 		go func(g int) {
 			defer wg.Done()
 			<-start
-			for i := 0; i < cs.Rounds*8; i++ {
+			// writers keep going until the last Clear has returned (a later
+			// Clear repairs the count, so only a race with the last one stays
+			// visible); bounded in case the clearer is starved
+			for i := 0; i < 4_000_000 && !stop.Load(); i++ {
 				k := wr.Uint64N(512) + 1
 				if wr.IntN(4) == 0 {
 					m.Del(k)
@@ -226,6 +231,7 @@ func runConcClear(c *ctx, idx int) (fail *seqFail, cs clearCase) {
 		for i := 0; i < cs.Rounds; i++ {
 			m.Clear()
 		}
+		stop.Store(true)
 	}()
 	close(start)
 	wg.Wait()
@@ -236,4 +242,66 @@ func runConcClear(c *ctx, idx int) (fail *seqFail, cs clearCase) {
 		return &seqFail{sig: "conc-clear/quiescent-miscount", what: fmt.Sprintf("%s map: after Clear() ran concurrently with Set/Del and every goroutine returned, Len()=%d but %d entries are reachable (ForEach yields %d)", cs.Table, cs.Len, cs.Reach, cs.Each)}, cs
 	}
 	return nil, cs
+}
+
+// runClearForced replays the losing schedule of Clear deterministically: the
+// harness holds the LAST segment's lock, so Clear() empties segments 0..n-2 and
+// then waits; a Set into (already emptied) segment 0 completes meanwhile; the
+// lock is released and Clear finishes with count.Store(0).
+func runClearForced(c *ctx, table string) (fail *seqFail, cs clearCase, inconc string) {
+	cs = clearCase{Kind: "clear", Table: table, Index: -1, Writers: 1, Rounds: 1}
+	var set func(uint64, any)
+	var get func(uint64) (any, bool)
+	var clear func()
+	var length func() int64
+	var inner *cache.SegmentUInt64Map[any]
+	if table == "segment" {
+		s := cache.NewSegmentUInt64Map[any](4, 0)
+		set, get, clear, length, inner = s.Set, s.Get, s.Clear, s.Len, s
+	} else {
+		s := cache.NewSyncUInt64Map[any](8)
+		set, get, clear, length, inner = s.Set, s.Get, s.Clear, s.Len, s.VerifC16Inner()
+	}
+	rng := c.r.Rand("clear-forced/" + table)
+	nseg := inner.SegmentCount()
+	var k0, k1 uint64
+	for i := 0; i < 1<<20 && (k0 == 0 || k1 == 0); i++ {
+		k := rng.Uint64() | 1
+		if inner.VerifC16SegmentOf(k) == 0 {
+			if k0 == 0 {
+				k0 = k
+			} else if k != k0 {
+				k1 = k
+			}
+		}
+	}
+	if k0 == 0 || k1 == 0 {
+		return nil, cs, "clear-forced: no keys found for segment 0"
+	}
+	set(k0, &cv{Key: k0, ID: 1})
+	unlock := inner.VerifC16LockSegment(nseg - 1)
+	done := make(chan struct{})
+	go func() { defer close(done); clear() }()
+	deadline := time.Now().Add(nolockWait)
+	for {
+		if _, ok := get(k0); !ok {
+			break // Clear has passed segment 0
+		}
+		if time.Now().After(deadline) {
+			unlock()
+			<-done
+			return nil, cs, "clear-forced: Clear did not reach segment 0 within the watchdog"
+		}
+		time.Sleep(200 * time.Microsecond)
+	}
+	set(k1, &cv{Key: k1, ID: 2}) // completes: segment 0 is free again
+	unlock()
+	<-done
+	n := 0
+	inner.ForEach(func(uint64, any) bool { n++; return true })
+	cs.Len, cs.Reach, cs.Each = int(length()), inner.VerifC16Reachable(), n
+	if cs.Len != cs.Reach || cs.Len != cs.Each {
+		return &seqFail{sig: "conc-clear/quiescent-miscount", what: fmt.Sprintf("%s map: Set(%#x) completed while Clear() was between emptying segment 0 and its final count.Store(0); after both returned Len()=%d but %d entries are reachable (ForEach yields %d)", table, k1, cs.Len, cs.Reach, cs.Each)}, cs, ""
+	}
+	return nil, cs, ""
 }
